@@ -254,6 +254,24 @@ Definition record_is (st : store) (k : key) (s : ts) (d : det) : bool := krec (w
 Definition is_cts_for (k : key) (s : ts) (c : cmd) : bool :=
   match c with CheckTxnStatus k' s' _ _ _ _ => (k' =? k) && (s' =? s) | _ => false end.
 
+(* the client glue around the cache (LockResolver.getTxnStatus): a memo hit answers without a request; otherwise the
+   answer (lock_ttl, commit_version, action) is read as TxnStatus - ttl /= 0: alive (commit ts not looked at), ttl = 0:
+   finished with that commit ts - and memoised iff cacheable. Result: (status returned, cache, request sent). *)
+Definition cstatus : Type := N * N * action.
+Definition cview (ans : cstatus) : cstatus :=
+  let '(ttl, c, a) := ans in if ttl =? 0 then (0, c, a) else (ttl, 0, a).
+Definition cs_committed (v : cstatus) : bool := let '(_, c, _) := v in 0 <? c.
+Definition cs_rolledback (v : cstatus) : bool := let '(ttl, c, a) := v in (ttl =? 0) && (c =? 0) && rollback_action a.
+Definition cacheable (v : cstatus) : bool :=
+  let '(ttl, c, a) := v in match determined3 ttl c a with Some _ => true | None => false end.
+Fixpoint memo_get (cache : list (ts * cstatus)) (txn : ts) : option cstatus :=
+  match cache with [] => None | (t, v) :: r => if t =? txn then Some v else memo_get r txn end.
+Definition get_txn_status (cache : list (ts * cstatus)) (txn : ts) (ans : cstatus) : cstatus * list (ts * cstatus) * bool :=
+  match memo_get cache txn with
+  | Some v => (v, cache, false)
+  | None => let v := cview ans in (v, if cacheable v then (txn, v) :: cache else cache, true)
+  end.
+
 (* ------------------------------------------------------------------ external consistency: event order *)
 Inductive ev :=
 | EvTso (t : ts)                   (* the oracle issued t *)
